@@ -106,7 +106,11 @@ def _analyse(text: str, kin=2):
     except puml_sem.ParseError:
         return {"parse": "unparseable"}
     names = sorted(set(puml_sem.event_name_list(ast)))
-    lang = puml_sem.language(ast, kmax=kin, cap=wl.LANG_CAP)
+    try:
+        lang = puml_sem.language(ast, kmax=kin, cap=wl.LANG_CAP)
+    except puml_sem.Unsupported:
+        # e.g. `break` outside any loop (C05's business): no language
+        lang = None
     return {"parse": "ok", "names": names,
             "lang": None if lang is None else puml_sem.lang_digest(lang),
             "n_lang": None if lang is None else len(lang)}
